@@ -29,7 +29,9 @@ for p in props:
           "engine":eng,"level_claimed":{"category":lvl,"text":text,"design_ref":ref},
           "level_note":"trusted base: badger v4.2.0 (linearizable transactions, commit atomic w.r.t. process kill), Go runtime, goja, echo; bounds and alphabets are listed in the evidence file",
           "technique":tech}
-        if eng=="SEQ": c["replay_cmd_template"]=replay["SEQ"]
+        # replay of a finding file (findings/<ID>/<hash>.json written next to every VIOLATION line) without the explorer
+        rw={"C14":"replay-c14","C15":"replay-c15","C18":"replay-c18","C20":"replay-backup","C01":"replay-store","C02":"replay-store","C03":"replay-store","C06":"replay-store"}.get(i)
+        if rw: c["replay_cmd_template"]="./bin/dhcheck worker "+rw+" {path}"
         checks.append(c)
 na=[{"property_id":p['id'],"reason":"check not built yet in this revision (work in progress; see DESIGN.md section 3)"} for p in props if p['id'] not in claimed]
 hooks=subprocess.check_output("git -C /repo log --format=%h --grep='^verif hooks' ",shell=True).decode().split()
